@@ -1,1 +1,59 @@
-fn main(){ println!("{}", sc62015_core::SNAPSHOT_MAGIC); }
+//! vrt: verification client of the real sc62015-core crate.
+//! Each subcommand reads JSON lines on stdin and writes one JSON line per command on stdout.
+mod flat;
+mod exec;
+
+use std::io::{self, BufRead, Write};
+use std::sync::atomic::{AtomicU64, Ordering};
+
+pub static PANICS: AtomicU64 = AtomicU64::new(0);
+
+pub fn run_lines<F: FnMut(serde_json::Value) -> serde_json::Value>(mut f: F) {
+    let stdin = io::stdin();
+    let stdout = io::stdout();
+    let mut out = io::BufWriter::new(stdout.lock());
+    for line in stdin.lock().lines() {
+        let line = match line {
+            Ok(l) => l,
+            Err(_) => break,
+        };
+        if line.trim().is_empty() {
+            continue;
+        }
+        let v: serde_json::Value = match serde_json::from_str(&line) {
+            Ok(v) => v,
+            Err(e) => {
+                let _ = writeln!(out, "{}", serde_json::json!({"harness_error": format!("bad json: {e}")}));
+                continue;
+            }
+        };
+        let r = f(v);
+        let _ = writeln!(out, "{}", r);
+    }
+    let _ = out.flush();
+}
+
+fn main() {
+    std::panic::set_hook(Box::new(|info| {
+        PANICS.fetch_add(1, Ordering::SeqCst);
+        let msg = info.to_string();
+        LAST_PANIC.with(|p| *p.borrow_mut() = msg);
+    }));
+    let args: Vec<String> = std::env::args().collect();
+    let cmd = args.get(1).map(|s| s.as_str()).unwrap_or("");
+    match cmd {
+        "exec" => exec::main(),
+        _ => {
+            eprintln!("usage: vrt <exec|...>");
+            std::process::exit(64);
+        }
+    }
+}
+
+thread_local! {
+    pub static LAST_PANIC: std::cell::RefCell<String> = std::cell::RefCell::new(String::new());
+}
+
+pub fn last_panic() -> String {
+    LAST_PANIC.with(|p| p.borrow().clone())
+}
